@@ -196,6 +196,20 @@ def generate(rng, tier) -> dict:
         sc["mode"] = "compiled"
         sc["shape"] = big_shape(k, rng) if rng.random() < 0.5 else gen_shape(k, rng)
         sc["threads"] = sorted({1, rng.randint(2, 16), rng.randint(2, 16), rng.choice([2, 3, 8, 16])})
+        if "nchans" in sc["shape"] and k not in EXTRA and rng.random() < 0.35:
+            # iteration counts just above a multiple of (threads x a power of two): where a hand-made
+            # partition of the loop (blocks per thread, padding to cache lines) loses its tail
+            t0 = rng.choice([2, 3, 4, 8, 16])
+            n0 = rng.choice([1, 8, 64]) * rng.randint(1, 4) * t0 + rng.randint(1, t0 - 1)
+            other = rng.randint(1, 6)
+            if k in ("extract_bpass", "mask_channels", "compute_online_moments", "compute_online_moments_basic"):
+                sc["shape"].update({"nchans": n0, "nsamps": other})
+            else:
+                sc["shape"].update({"nchans": other, "nsamps": n0, "maxdelay": 0})
+                if k == "subband":
+                    sc["shape"]["nsub"] = 1
+            sc["threads"] = sorted(set(sc["threads"]) | {t0})
+            sc["partition_edge"] = True
         sc["chunksize"] = rng.choice([0, 0, 1, 3])
         sc["repeats"] = rng.randint(1, 4)
     else:
@@ -378,6 +392,8 @@ def execute(sc, ctx) -> None:
     cs = int(sc.get("chunksize", 0))
     if cs:
         ctx.probe("compiled:chunksize>0")
+    if sc.get("partition_edge"):
+        ctx.probe("compiled:iterations-just-above-threads-x-2^k")
     info.update({"layer": layer, "chunksize": cs})
     try:
       for _attempt in range(int(sc.get("attempts", 1))):
